@@ -64,7 +64,7 @@ Fixpoint wf (e : op) : bool :=
   | Gen _ | Tridiag _ _ _ _ | House _ _ _ => true
   | Perm n p => forallb (fun i => (p i <? n)%nat) (seq 0 n)
   | Sparse m n ent => forallb (fun e => (fst (fst e) <? m)%nat && (snd (fst e) <? n)%nat) ent
-  | KronSum ms => false (* TODO-KRONSUM *) && negb (Nat.eqb (length ms) 0) && forallb wf ms && forallb (fun s => (0 <? fst s)%nat && Nat.eqb (fst s) (snd s)) (map shape ms)
+  | KronSum ms => negb (Nat.eqb (length ms) 0) && forallb wf ms && forallb (fun s => (0 <? fst s)%nat && Nat.eqb (fst s) (snd s)) (map shape ms)
   | Sliced a rs cs => wf a && forallb (fun i => (i <? fst (shape a))%nat) rs && forallb (fun j => (j <? snd (shape a))%nat) cs
                       && nodupb rs && nodupb cs
   | ConcatV ms => negb (Nat.eqb (length ms) 0) && forallb wf ms && forallb (fun s => Nat.eqb (snd s) (snd (hd (0,0)%nat (map shape ms)))) (map shape ms)
@@ -84,6 +84,9 @@ Definition ksum2 (A B : fac) : fac :=
   mkfac (fr A * fr B) (fc A * fc B)
     (fun i j => fmx A (i / fr B)%nat (j / fc B)%nat * delta (i mod fr B)%nat (j mod fc B)%nat
               + delta (i / fr B)%nat (j / fc B)%nat * fmx B (i mod fr B)%nat (j mod fc B)%nat).
+Definition zero11 : fac := mkfac 1 1 (fun _ _ => r0).
+(* Kronecker sum, right-nested:  M (+) Ms' = M (x) I + I (x) (+)Ms'  (the empty sum is the 1x1 zero) *)
+Fixpoint ksumR (Ms : list fac) : fac := match Ms with [] => zero11 | M :: Ms' => ksum2 M (ksumR Ms') end.
 Definition spden (ent : list (nat * nat * R)) : fm :=
   fun i j => fold_right (fun e acc => (if Nat.eqb (fst (fst e)) i && Nat.eqb (snd (fst e)) j then snd e else r0) + acc) r0 ent.
 Definition scat (cs : list nat) (X : fm) : fm :=
@@ -107,8 +110,7 @@ Fixpoint den (e : op) : fm :=
   | Tridiag n al be ga => fun i j => (if Nat.eqb i j then be i else r0) + (if Nat.eqb i (S j) then al j else r0) + (if Nat.eqb (S i) j then ga i else r0)
   | House n v beta => fun i j => delta i j - beta * v i * conj (v j)
   | Sparse m n ent => spden ent
-  | KronSum ms => match map (fun m => mkfac (fst (shape m)) (snd (shape m)) (den m)) ms with
-                  | [] => zerom | f :: fs => fmx (fold_left ksum2 fs f) end
+  | KronSum ms => fmx (ksumR (map (fun m => mkfac (fst (shape m)) (snd (shape m)) (den m)) ms))
   | Sliced a rs cs => fun i j => den a (nth i rs 0%nat) (nth j cs 0%nat)
   | ConcatV ms => vstack (map (fun m => (fst (shape m), den m)) ms)
   end.
